@@ -441,6 +441,132 @@ def run_fetch(case):
     return res
 
 
+# ---------------------------------------------------------------- id / serialisation over edit histories (E2)
+H_QUERIES = ["id", "hash", "serialize", "repr"]
+H_EDITS = ["locktime", "in0.seq", "in0.index", "in0.scriptsig", "out0.amount", "append-out", "pop-out", "version", "in0.witness", "in1.witness"]
+
+
+def h_apply_abstract(ab, e):
+    if e == "locktime":
+        ab["locktime"] ^= 0x20
+    elif e == "in0.seq":
+        ab["ins"][0]["seq"] ^= 1
+    elif e == "in0.index":
+        ab["ins"][0]["index"] ^= 2
+    elif e == "in0.scriptsig":
+        ab["ins"][0]["script"] = txref.script_from_items([b"\x30\x06sig", b"\x02key"]) if not ab["ins"][0]["script"] else b""
+    elif e == "out0.amount":
+        ab["outs"][0]["amount"] ^= 0x400
+    elif e == "append-out":
+        ab["outs"].append({"amount": 4321, "script": b"\x51"})
+    elif e == "pop-out":
+        if len(ab["outs"]) > 1:
+            ab["outs"].pop()
+    elif e == "version":
+        ab["version"] ^= 3
+    elif e == "in0.witness":
+        ab["ins"][0]["witness"] = [b"\x01\x02"] if ab["ins"][0]["witness"] != [b"\x01\x02"] else [b"\x03"]
+    elif e == "in1.witness":
+        ab["ins"][1]["witness"] = [b"\x09"] if not ab["ins"][1]["witness"] else []
+
+
+def h_apply_lib(tx, e):
+    from buidl.script import Script
+    from buidl.timelock import Locktime, Sequence
+    from buidl.tx import TxOut
+    from buidl.witness import Witness
+
+    if e == "locktime":
+        tx.locktime = Locktime(int(tx.locktime) ^ 0x20)
+    elif e == "in0.seq":
+        tx.tx_ins[0].sequence = Sequence(int(tx.tx_ins[0].sequence) ^ 1)
+    elif e == "in0.index":
+        tx.tx_ins[0].prev_index ^= 2
+    elif e == "in0.scriptsig":
+        if not tx.tx_ins[0].script_sig.commands:
+            tx.tx_ins[0].finalize_p2pkh(b"\x30\x06sig", b"\x02key")
+        else:
+            tx.tx_ins[0].script_sig = Script()
+    elif e == "out0.amount":
+        tx.tx_outs[0].amount ^= 0x400
+    elif e == "append-out":
+        tx.tx_outs.append(TxOut(4321, Script([0x51])))
+    elif e == "pop-out":
+        if len(tx.tx_outs) > 1:
+            tx.tx_outs.pop()
+    elif e == "version":
+        tx.version ^= 3
+    elif e == "in0.witness":
+        tx.tx_ins[0].witness = Witness([b"\x01\x02"]) if tx.tx_ins[0].witness.items != [b"\x01\x02"] else Witness([b"\x03"])
+    elif e == "in1.witness":
+        tx.tx_ins[1].witness = Witness([b"\x09"]) if not tx.tx_ins[1].witness.items else Witness([])
+
+
+def gen_idhist(tier, seed):
+    depth = 3 if tier == "quick" else 4
+    events = [["q", q] for q in H_QUERIES] + [["e", e] for e in H_EDITS]
+    cases = []
+    for sw in (False, True):
+        for first in events:
+            for second in events:
+                cases.append({"segwit": sw, "prefix": [first, second], "depth": depth})
+    return cases
+
+
+def run_idhist(case):
+    import copy
+
+    res = Res()
+    events = [["q", q] for q in H_QUERIES] + [["e", e] for e in H_EDITS]
+    base = base_segwit(0)
+    if not case["segwit"]:
+        base = dict(base, sw=False)
+        base["ins"] = [i[:4] + [[]] for i in base["ins"]]
+    depth = case["depth"]
+    tails = [[]]
+    for _ in range(depth - len(case["prefix"])):
+        tails = [t + [ev] for t in tails for ev in events] + [[]] if False else [t + [ev] for t in tails for ev in events]
+    hists = [case["prefix"] + t for t in tails] if depth > len(case["prefix"]) else [case["prefix"]]
+    if case.get("replay"):
+        hists = [case["replay"]]
+    for hist in hists:
+        if not case["segwit"] and any(ev[1] in ("in0.witness", "in1.witness") for ev in hist):
+            res.skip("witness edits on a legacy-flagged transaction")
+            continue
+        ab = to_abstract(copy.deepcopy(base))
+        tx = build_via_api(copy.deepcopy(base))
+        ok = True
+        for step, (kind, what) in enumerate(hist):
+            res.transitions += 1
+            if kind == "e":
+                h_apply_abstract(ab, what)
+                h_apply_lib(tx, what)
+                continue
+            if ab["segwit"] and not any(i["witness"] for i in ab["ins"]):
+                ref_ser = None  # not a canonical encoding (all witnesses empty): serialisation not asserted
+            else:
+                ref_ser = txref.ser_tx(ab)
+            exp = {"id": txref.txid(ab), "hash": bytes.fromhex(txref.txid(ab)), "serialize": ref_ser, "repr": None}[what]
+            got = attempt(getattr(tx, what if what != "repr" else "__repr__"))
+            if what == "repr" or exp is None:
+                continue
+            if got != exp:
+                stale = any(k == "e" for k, _ in hist[:step]) and any(k == "q" for k, _ in hist[:step])
+                res.violation(
+                    f"C04/idhist/{what}/{'stale-after-edit' if stale else 'wrong'}",
+                    {"engine": "idhist", "case": dict({k: v for k, v in case.items() if k != "replay"}, replay=hist[: step + 1])},
+                    got if not isinstance(got, bytes) else got.hex()[:120],
+                    exp if not isinstance(exp, bytes) else exp.hex()[:120],
+                    f"{what}() after history {hist[:step]} is not the value for the current transaction content",
+                )
+                ok = False
+                break
+        if ok:
+            res.states += 1
+            res.ok("history consistent", nontrivial=repr(hist) if any(k == "e" for k, _ in hist) and hist[-1][0] == "q" else None, sample={"history": hist} if len(hist) == 3 and hist[0][0] == "q" and hist[1][0] == "e" and hist[2][0] == "q" else None)
+    return res
+
+
 def engines(tier, seed):
     def fetch_cases(t, s):
         cs = gen_fetch(t, s)
@@ -458,6 +584,13 @@ def engines(tier, seed):
             "push pairs over {0,1,74,75,76,255,256,520}^2, every non-push opcode byte, templates, counts 0..5/250..256/300, witness shapes, "
             "integer boundaries); thorough adds every pair of deviations over reduced alphabets. Non-trivial = deviates from the base; "
             "oracle = independent wire encoder, both directions, byte-exact",
+        ),
+        Engine(
+            "idhist",
+            gen_idhist,
+            run_idhist,
+            kind="E2",
+            rule="every history of <= 3 (thorough 4) events on ONE Tx object (legacy-flagged and segwit-flagged): queries {id, hash, serialize, repr} and edits {locktime, sequence, outpoint, scriptSig via finalize_p2pkh, output amount, append/remove output, version, witness of input 0/1}; every query must equal the reference value for the current content (so the id changes with every non-witness edit, ignores witness edits, and no earlier query leaves stale state)",
         ),
         Engine(
             "fetch",
